@@ -140,6 +140,15 @@ func (tr *Trans) call(c *ssa.CallCommon, in ssa.Instruction, resT types.Type) Va
 
 func (tr *Trans) staticCall(fn *ssa.Function, binds []Val, args []Val, in ssa.Instruction, resT types.Type) Val {
 	key := fn.String()
+	if top := tr.g.topTr; top != nil && top.contract != nil && tr.g.dry == 0 && tr.g.opts.Safety {
+		for _, nc := range top.contract.NoCalls {
+			if strings.HasSuffix(key, nc.Src) {
+				tr.g.noCallN++
+				tr.e.oblige(&Obl{Name: fmt.Sprintf("%s#nocall:%s@%d", top.label, nc.Label, tr.g.noCallN), Kind: "nocall", Props: nc.Props,
+					Cond: tr.rc, Goal: tFalse, Pos: tr.posOf(in), Fn: top.label})
+			}
+		}
+	}
 	ct := tr.g.specs.Contracts[key]
 	if ct != nil && ct.Thin {
 		ct = nil
